@@ -84,6 +84,28 @@ def gen(draw):
     return c
 
 
+def expected_recombinations(t, comp):
+    """Recombination events implied by a trace record: for every component (sorted positions b) and every child, a change of
+    the child's transmission value between b[i-1] and b[i] for i >= 2 (the tool does not report the first pair of a block).
+    Returns sorted tuples (child, chromosome, pos1, pos2, father1, father2, mother1, mother2), 1-based positions."""
+    tv = t["transmission_vector"]
+    pos = t["accessible_positions"]
+    idx = {p: i for i, p in enumerate(pos)}
+    blocks = {}
+    for p in pos:
+        blocks.setdefault(comp[p], []).append(p)
+    out = []
+    for k, (fa, mo, ch) in enumerate(t["trios"]):
+        for b in blocks.values():
+            b = sorted(b)
+            for i in range(2, len(b)):
+                v1 = (tv[idx[b[i - 1]]] >> (2 * k)) & 3
+                v2 = (tv[idx[b[i]]] >> (2 * k)) & 3
+                if v1 != v2:
+                    out.append((ch, t["chromosome"], b[i - 1] + 1, b[i] + 1, v1 % 2, v2 % 2, v1 // 2, v2 // 2))
+    return sorted(out)
+
+
 def read_lines(path):
     if not path or not os.path.exists(path):
         return None
@@ -218,6 +240,16 @@ class ListsPart:
                     ctx.violation("lists:recombination-position", "recombination %r is not between two accessible variants of %s" % (line, chrom))
                 elif fam in comp and comp[fam].get(p1) != comp[fam].get(p2):
                     ctx.violation("lists:recombination-across-sets", "recombination %r joins two different phase sets" % line)
+            if not o["distrust"]:
+                want = []
+                for t in trace:
+                    key = (t["chromosome"], tuple(t["family"]))
+                    if len(t["family"]) > 1 and key in comp and t["transmission_vector"]:
+                        want += expected_recombinations(t, comp[key])
+                got = sorted((p[0], p[1], int(p[2]), int(p[3]), int(p[4]), int(p[5]), int(p[6]), int(p[7])) for p in (l.split() for l in lists["recomb"]))
+                if got != sorted(want):
+                    ctx.violation("lists:recombination-vs-transmission", "recombination list %r differs from the changes of the traced transmission vector inside components %r" % (
+                        [g for g in got if g not in want][:3] + ["..."] + [w for w in want if w not in got][:3], len(want)))
             if lists["recomb"]:
                 ctx.label("recombination-entries")
         # non-trivial: entries on a chromosome/family that is not the last one processed
@@ -236,4 +268,110 @@ class ListsPart:
         ctx.label("distrust" if o["distrust"] else "trusted")
 
 
-PARTS = [ListsPart()]
+class RecombPart:
+    """trios/quartets with planted recombinations and interleaved components (N-gapped reads, optional
+    --no-genetic-haplotyping): the recombination list must equal the changes of the traced transmission vector inside
+    the recomputed components"""
+    name = "recomb"
+    budget = {"quick": 960, "thorough": 16000}
+
+    def strategy(self, tier):
+        @st.composite
+        def case(draw):
+            nchildren = draw(st.sampled_from([1, 1, 2]))
+            names = ["father", "mother", "child"] + (["child2"] if nchildren == 2 else [])
+            c = P.gen_case(draw, sample_names=names, ncontigs=(1, 1), length=(500, 1200), depth=(2, 7), read_len=(40, 160), paired_share=0,
+                           skip_share=45, clip_share=0, eqx_share=0, mingap=25, maxgap=55, kinds=("snv",))
+            name = c["contigs"][0]["name"]
+            n = len(c["variants"][name])
+            f, m = c["haps"]["father"][name], c["haps"]["mother"][name]
+            for vi in range(n):
+                if draw(st.integers(0, 5)) == 0:
+                    who = draw(st.sampled_from([f, m]))
+                    who[1][vi] = who[0][vi]
+            for child in names[2:]:
+                fh, mh = draw(st.integers(0, 1)), draw(st.integers(0, 1))
+                rf = sorted(draw(st.lists(st.integers(1, max(1, n - 1)), min_size=0, max_size=2)))
+                rm = sorted(draw(st.lists(st.integers(1, max(1, n - 1)), min_size=0, max_size=2)))
+                ch = [[0] * n, [0] * n]
+                for vi in range(n):
+                    ch[0][vi] = f[(fh + sum(1 for r in rf if vi >= r)) % 2][vi]
+                    ch[1][vi] = m[(mh + sum(1 for r in rm if vi >= r)) % 2][vi]
+                c["haps"][child][name] = ch
+            c["genetic"] = draw(st.sampled_from([True, True, False]))
+            c["recombrate"] = draw(st.sampled_from([1.26, 1.26, 1000.0, 1e5]))
+            if draw(st.booleans()):
+                # nested component: variants heterozygous in every member are linked only among themselves by N-gapped
+                # "linker" reads, while ordinary reads that would tie them to other variants are dropped
+                S = [vi for vi in range(n) if all(len({h[vi] for h in c["haps"][s][name]}) == 2 for s in names)]
+                V = c["variants"][name]
+                L = len(c["contigs"][0]["seq"])
+
+                def covers(sp, vi):
+                    return any(a <= V[vi]["pos"] < b for a, b in sp["segments"])
+                c["read_specs"] = [sp for sp in c["read_specs"]
+                                   if not (any(covers(sp, vi) for vi in S) and any(covers(sp, vi) for vi in range(n) if vi not in S))]
+                k = 0
+                for s in names:
+                    for i in range(0, max(0, len(S) - 1)):
+                        for h in (0, 1):
+                            if draw(st.integers(0, 2)) == 0:
+                                continue
+                            span = S[i:i + draw(st.integers(2, 3))]
+                            segs = [[max(0, V[vi]["pos"] - 11), min(L, V[vi]["pos"] + 12)] for vi in span]
+                            c["read_specs"].append({"name": "link_%s_%d" % (s, k), "sample": s, "chrom": name, "hap": h, "segments": segs})
+                            k += 1
+                c["linkers"] = True
+            return c
+        return case()
+
+    def run(self, case, ctx):
+        from props.c03_components import components_from_trace
+        d = ctx.tmp()
+        reads = G.render_specs(case, case["read_specs"])
+        if not reads:
+            return
+        names = case["samples"]
+        name = case["contigs"][0]["name"]
+        ref = G.write_fasta(case["contigs"], os.path.join(d, "ref.fa"))
+        vcf = G.write_vcf(case, os.path.join(d, "in.vcf"))
+        bam = G.write_bam(case, reads, os.path.join(d, "reads.bam"))
+        ped = G.write_ped([["father", "mother", ch] for ch in names[2:]], os.path.join(d, "fam.ped"))
+        rl = os.path.join(d, "recomb.tsv")
+        out, trace = P.run_phase(d, vcf, [bam], reference=ref, ped=ped, recombination_list_filename=rl,
+                                 genetic_haplotyping=case["genetic"], recombrate=case["recombrate"])
+        variants = case["variants"][name]
+        idx = {v["pos"]: vi for vi, v in enumerate(variants)}
+        want = []
+        interleaved = False
+        for t in trace:
+            if len(t["family"]) < 3 or not t["transmission_vector"]:
+                continue
+            merge = None
+            if case["genetic"]:
+                merge = [p for p in t["accessible_positions"] if any(len({h[idx[p]] for h in case["haps"][s][name]}) == 1 for s in t["family"])]
+            comp = components_from_trace(t, merge)
+            blocks = {}
+            for p, cid in comp.items():
+                blocks.setdefault(cid, []).append(p)
+            ivs = sorted((min(b), max(b)) for b in blocks.values() if len(b) >= 3)
+            if any(ivs[i + 1][0] < ivs[i][1] for i in range(len(ivs) - 1)) or any(
+                    len(b) >= 3 and any(comp[q] != cid for q in t["accessible_positions"] if min(b) < q < max(b)) for cid, b in blocks.items()):
+                interleaved = True
+            want += expected_recombinations(t, comp)
+        got = []
+        for line in read_lines(rl) or []:
+            p = line.split()
+            got.append((p[0], p[1], int(p[2]), int(p[3]), int(p[4]), int(p[5]), int(p[6]), int(p[7])))
+        if sorted(got) != sorted(want):
+            ctx.violation("recomb:list-vs-transmission", "recombination list %r; changes of the traced transmission vector inside components %r" % (
+                sorted(got)[:5], sorted(want)[:5]))
+        ctx.nontrivial(bool(want) and interleaved)
+        if want:
+            ctx.label("recombination-entries")
+        if interleaved:
+            ctx.label("interleaved-components")
+        ctx.label("genetic" if case["genetic"] else "no-genetic-haplotyping")
+
+
+PARTS = [ListsPart(), RecombPart()]
